@@ -1,5 +1,144 @@
-"""Thorough tier extras: seed variation, vacuity probes, mutation self-test (filled in later)."""
+"""Thorough tier extras (DESIGN.md 2.5): run after the quick-tier units have passed.
+
+(a) seed variation  — every Verus unit is re-verified under two more SMT seeds; an obligation that
+    flips is reported as unstable (tool failure, exit 2), never as a violation;
+(b) vacuity probes  — `assert(false)` is appended to the end of every harness function; Verus must
+    FAIL each of them, otherwise the hypotheses of that harness are contradictory (exit 2);
+(c) mutation self-test — a fixed list of source edits (lib/mutants.py, plus the seeded changes under
+    seeded/) is applied to a scratch copy of /repo/src; the quick check of this property must raise
+    an alarm for each mutant assigned to it.  Survivors are recorded in the evidence (they do not
+    change the exit code: they document detection power measured on this run).
+"""
+import json
+import os
+import re
+import shutil
+import subprocess
+
+import vdrv
+import mutants
+
+
+def _probe_text(src):
+    """append assert(false) before the closing brace of every top-level fn of a props file;
+    returns (text, [line numbers of the inserted asserts], [fn names])"""
+    lines = src.splitlines()
+    out = []
+    probes = []
+    names = []
+    depth = 0
+    cur = None
+    in_sig = False
+    for ln in lines:
+        stripped = ln.strip()
+        if stripped.startswith("pub mod props {"):
+            out.append(ln)
+            continue
+        m = re.match(r"^pub (proof fn|fn|broadcast proof fn) (\w+)", ln)
+        if depth == 0 and m and "spec fn" not in ln:
+            cur = m.group(2)
+            in_sig = True
+        opens = ln.count("{")
+        closes = ln.count("}")
+        if depth == 0 and cur and in_sig and opens > 0:
+            in_sig = False
+        if cur and not in_sig and depth + opens - closes == 0 and closes > 0 and stripped == "}":
+            out.append("    assert(false); // VACUITY-PROBE " + cur)
+            probes.append(len(out))
+            names.append(cur)
+            cur = None
+        depth += opens - closes
+        out.append(ln)
+    return "\n".join(out) + "\n", probes, names
+
+
+def vacuity(unit_res, workdir):
+    """returns list of harness functions whose end is NOT refuted (vacuous)"""
+    path = unit_res["path"]
+    txt = open(path).read()
+    i = txt.find("pub mod props {")
+    if i < 0:
+        return [], 0
+    head, tail = txt[:i], txt[i:]
+    j = tail.rfind("} // mod props")
+    body = tail[:j]
+    ptxt, probes, names = _probe_text(body)
+    if not probes:
+        return [], 0
+    off = head.count("\n")
+    new = head + ptxt + tail[j:]
+    ppath = path.replace(".rs", "_vacuity.rs")
+    open(ppath, "w").write(new)
+    run = vdrv.run_verus(ppath, extra=["--verify-only-module", "props"], rlimit=30)
+    if run["json"] is None or (run["json"].get("verification-results", {}).get("verified", 0) == 0 and run["json"].get("verification-results", {}).get("errors", 0) == 0):
+        raise vdrv.ToolFailure("vacuity probe run produced no result:\n" + run["stderr"][-2000:])
+    # a probe is vacuous iff Verus VERIFIED the function although it ends in assert(false);
+    # a failed assertion or an exhausted resource limit both mean "not proved", i.e. not vacuous
+    ok_fns = set()
+    try:
+        for mt in run["json"]["times-ms"]["smt"]["smt-run-module-times"]:
+            for fb in mt.get("function-breakdown", []):
+                if fb.get("success"):
+                    ok_fns.add(fb["function"].split("::")[-1])
+    except Exception:
+        raise vdrv.ToolFailure("vacuity probe run: no per-function results")
+    vac = [n for n in names if n in ok_fns]
+    return vac, len(probes)
+
+
+def seed_variation(unit_res, seed):
+    flips = []
+    for s in (seed + 101, seed + 977):
+        run = vdrv.run_verus(unit_res["path"], seed=s)
+        kind, info = vdrv.classify(run)
+        if kind != "ok":
+            flips.append({"seed": s, "kind": kind, "detail": (run["stderr"][-800:] if kind != "ok" else "")})
+    return flips
+
+
+def mutation_selftest(prop, workdir):
+    res = {"killed": [], "survived": [], "not_applicable": []}
+    scratch = os.path.join(workdir, "mutant_repo")
+    for mname, m in mutants.for_property(prop):
+        if os.path.exists(scratch):
+            shutil.rmtree(scratch)
+        os.makedirs(scratch)
+        shutil.copytree(os.path.join(vdrv.REPO, "src"), os.path.join(scratch, "src"))
+        ok = mutants.apply(m, scratch)
+        if not ok:
+            res["not_applicable"].append(mname)
+            continue
+        env = dict(os.environ, VERIF_REPO=scratch, VERIF_TIER="quick", VERIF_NO_EVIDENCE="1")
+        r = subprocess.run([os.path.join(vdrv.VERIF, "check"), prop, "--tier", "quick"], env=env, stdout=subprocess.PIPE, stderr=subprocess.PIPE, text=True)
+        verdict = {0: "survived", 1: "killed"}.get(r.returncode, "undecided(exit %d)" % r.returncode)
+        ob = re.findall(r"FAILED-OBLIGATION property=\S+ (\S+)", r.stdout)
+        entry = {"mutant": mname, "verdict": verdict, "failed_obligations": ob[:4]}
+        if r.returncode == 1:
+            res["killed"].append(entry)
+        else:
+            res["survived"].append(entry)
+    if os.path.exists(scratch):
+        shutil.rmtree(scratch)
+    return res
 
 
 def run(prop, cfg, seed, workdir, results):
-    return {}
+    out = {"seed_variation": [], "vacuity_probes": 0, "vacuous": [], "unstable": []}
+    for r in results:
+        if r.get("backend") == "kani":
+            continue
+        flips = seed_variation(r, seed)
+        out["seed_variation"].append({"unit": r["unit"], "extra_seeds": 2, "flips": flips})
+        if flips:
+            out["unstable"].append({"unit": r["unit"], "flips": flips})
+        vac, n = vacuity(r, workdir)
+        out["vacuity_probes"] += n
+        if vac:
+            out["vacuous"].extend(vac)
+    if not out["unstable"] and not out["vacuous"] and not os.environ.get("VERIF_NO_MUTANTS"):
+        out["mutation_selftest"] = mutation_selftest(prop, workdir)
+    if not out["unstable"]:
+        out.pop("unstable")
+    if not out["vacuous"]:
+        out.pop("vacuous")
+    return out
